@@ -20,6 +20,11 @@
 //! function reports the first read error; bytes handed over up to the first failing call are a
 //! prefix of the ideal run's bytes and equal to them when every call succeeded; the sink then
 //! decodes (crate::dec) to everything written.
+//! Pair oracle (`pair_case`; all of it under `bvh adapters c05`, a light subset in the main run): same source,
+//! settings and own-buffer size (1, 7, 100, 4095, 4096, 4196, 65537) x quality 0/1/2/5 x lgwin 10/16/22, the
+//! CompressorReader drained with caller read sizes 8192 vs all-1 / an odd cycle / random / huge => identical
+//! bytes (`adapters:reader-bytes-depend-on-read-sizes`); the CompressorWriter (quality >= 2, size_hint set) fed
+//! with the same write-size schedules => identical bytes (`adapters:writer-bytes-depend-on-write-sizes`).
 //! Corpus: /verif/corpus/adapters/*.txt, one request line per file (format of ops.txt), run first.
 use crate::prng::Rng;
 use crate::util::*;
@@ -620,6 +625,74 @@ pub fn run_case(c: &Case, rep: &mut Report, verbose: bool) -> (String, String) {
     (ops, imp)
 }
 
+
+// ------------------------------------------------------------------ pair oracle (C05's buffering clause through the adapters)
+/// read the whole compressed stream with a schedule of caller read sizes (cycled); None = error / no EOF
+fn read_all_with(data: &[u8], buf: usize, q: u32, lgwin: u32, sizes: &[usize]) -> Option<Vec<u8>> {
+    let mut rd = brotli::CompressorReader::new(data, buf, q, lgwin);
+    let mut out = vec![]; let mut i = 0usize; let mut tmp = vec![0u8; *sizes.iter().max().unwrap()];
+    let limit = 40 * data.len() + 100_000;
+    loop {
+        let n = sizes[i % sizes.len()]; i += 1;
+        match rd.read(&mut tmp[..n]) { Ok(0) => return Some(out), Ok(k) => out.extend_from_slice(&tmp[..k]), Err(_) => return None }
+        if i > limit { return None; }
+    }
+}
+fn write_all_with(data: &[u8], buf: usize, q: u32, lgwin: u32, sizes: &[usize]) -> Option<Vec<u8>> {
+    let mut p = BrotliEncoderParams::default(); p.quality = q as i32; p.lgwin = lgwin as i32; p.size_hint = data.len();
+    let mut w = brotli::CompressorWriter::with_params(Vec::new(), buf, &p);
+    let mut off = 0usize; let mut i = 0usize;
+    while off < data.len() { let n = sizes[i % sizes.len()].min(data.len() - off); i += 1; if w.write_all(&data[off..off + n]).is_err() { return None; } off += n; }
+    Some(w.into_inner())
+}
+/// one (buffer, quality, lgwin) point: the reference schedule against three others, reader and writer
+fn pair_case(idx: usize, seed: u64, bufs: &[usize], rep: &mut Report) {
+    let qs = [0u32, 1, 2, 5]; let lgs = [10u32, 16, 22];
+    let buf = bufs[idx % bufs.len()]; let q = qs[(idx / bufs.len()) % 4]; let lgwin = lgs[(idx / (bufs.len() * 4)) % 3];
+    let mut rng = Rng::new(seed ^ 0xC05 ^ ((idx as u64) << 20));
+    let n = (3 * buf + 1234).max(20000).min(if q >= 5 { 120_000 } else { 210_000 });
+    let data: Vec<u8> = match idx % 3 { 0 => (0..n).map(|i| if rng.chance(1, 4) { rng.below(256) as u8 } else { b"a quick brown fox jumps over a lazy dog; "[i % 41] }).collect(), 1 => (0..n).map(|_| rng.below(256) as u8).collect(), _ => (0..n).map(|i| (i * 31 % 251) as u8 ^ ((i >> 9) as u8)).collect() };
+    let reference = read_all_with(&data, buf, q, lgwin, &[8192]);
+    let r1 = rng.range(2, 50) as usize; let r2 = rng.range(51, 3000) as usize;
+    let schedules: Vec<(&str, Vec<usize>)> = vec![("1", vec![1]), ("odd-cycle", vec![1, 3, 17, 1000, 7, 4097]), ("random", vec![r1, r2, 1, r1 * 3 + 1]), ("huge", vec![1 << 20])];
+    rep.count(&format!("pair.reader.buf_{}", buf)); rep.count(&format!("pair.q{}", q)); rep.count(&format!("pair.lgwin{}", lgwin));
+    for (name, sizes) in &schedules {
+        if *name == "1" && n > 60_000 { continue; }
+        rep.evaluations += 1; rep.nontrivial += 1;
+        let other = read_all_with(&data, buf, q, lgwin, sizes);
+        let case = format!("{{\"pair\":\"reader\",\"buffer\":{},\"q\":{},\"lgwin\":{},\"input_len\":{},\"input_kind\":{},\"seed\":{},\"idx\":{},\"schedule_a\":\"8192\",\"schedule_b\":{}}}", buf, q, lgwin, n, idx % 3, seed, idx, jstr(&format!("{:?}", sizes)));
+        match (&reference, &other) {
+            (Some(a), Some(b)) => {
+                if a != b { rep.violation("adapters:reader-bytes-depend-on-read-sizes", &format!("same source, settings and internal buffer ({} bytes): reads of 8192 give {} bytes, schedule {} gives {} bytes (first difference at {})", buf, a.len(), name, b.len(), crate::dec::first_diff(a, b)), case); }
+                else { rep.count("pair.reader.equal"); }
+            }
+            _ => rep.violation("adapters:reader-pair-run-failed", "a read returned Err or the stream did not end", case),
+        }
+    }
+    if let Some(a) = &reference { match crate::dec::decode(a, n + 65536) { crate::dec::DResult::Ok(v) if v == data => rep.count("pair.reader.decoded"), _ => rep.violation("adapters:complete-stream-does-not-decode", "pair reference stream does not decode to the source", format!("{{\"pair\":\"reader\",\"idx\":{},\"seed\":{}}}", idx, seed)) } }
+    // writer: caller write sizes (quality >= 2 with size_hint: C05's chunking clause)
+    if q >= 2 {
+        let wref = write_all_with(&data, buf, q, lgwin, &[8192]);
+        for (name, sizes) in &schedules {
+            if *name == "1" && n > 60_000 { continue; }
+            rep.evaluations += 1;
+            let other = write_all_with(&data, buf, q, lgwin, sizes);
+            let case = format!("{{\"pair\":\"writer\",\"buffer\":{},\"q\":{},\"lgwin\":{},\"input_len\":{},\"input_kind\":{},\"seed\":{},\"idx\":{},\"schedule_b\":{}}}", buf, q, lgwin, n, idx % 3, seed, idx, jstr(&format!("{:?}", sizes)));
+            match (&wref, &other) {
+                (Some(a), Some(b)) => { if a != b { rep.violation("adapters:writer-bytes-depend-on-write-sizes", &format!("same data, settings (size_hint set) and internal buffer ({} bytes): writes of 8192 give {} bytes, schedule {} gives {} bytes", buf, a.len(), name, b.len()), case); } else { rep.count("pair.writer.equal"); } }
+                _ => rep.violation("adapters:writer-pair-run-failed", "a write returned Err", case),
+            }
+        }
+    }
+}
+const PAIR_BUFS_FULL: [usize; 7] = [1, 7, 100, 4095, 4096, 4196, 65537];
+const PAIR_BUFS_LIGHT: [usize; 3] = [7, 4196, 100];
+fn run_pairs(seed: u64, bufs: &'static [usize], rep: &mut Report) {
+    let n = bufs.len() * 4 * 3;
+    let results = par_tasks(n, move |i| { let mut r = Report::default(); pair_case(i, seed, bufs, &mut r); r });
+    for r in results { rep.merge(r); }
+}
+
 // ------------------------------------------------------------------ generators
 fn gen_data(rng: &mut Rng, n: usize) -> Vec<u8> {
     match rng.below(4) {
@@ -740,6 +813,20 @@ pub fn run_cmd(args: &Args) {
     let thorough = args.tier == "thorough";
     let mut corr = Corr::new(&args.out);
     let mut rep = Report::default();
+    // `bvh adapters c05`: only the pair cases (same source / settings / own buffer, two schedules of caller
+    // read resp. write sizes => identical compressed bytes), plus a handful of small correspondence cases
+    if args.rest.get(0).map(|s| s.as_str()) == Some("c05") {
+        run_pairs(args.seed, &PAIR_BUFS_FULL, &mut rep);
+        if thorough { run_pairs(args.seed.wrapping_add(1), &PAIR_BUFS_FULL, &mut rep); run_pairs(args.seed.wrapping_add(2), &PAIR_BUFS_FULL, &mut rep); }
+        let data: Vec<u8> = (0..300u32).map(|i| (i * 37 % 251) as u8).collect();
+        for (buf, q) in [(7usize, 1u32), (100, 0), (7, 5), (100, 2)] { for sz in [1usize, 5, 64] {
+            let c = Case::R { custom_io: false, buf, q, lgwin: 10, src: data.clone(), script: vec![], tail: Beh::F, calls: (0..(if sz == 1 { 400 } else { 90 })).map(|_| RCall::Read(sz)).chain((0..3).map(|_| RCall::Read(8192))).collect() };
+            let (o, a) = run_case(&c, &mut rep, false); corr.case(&o, &a);
+        } }
+        rep.sample("pair: CompressorReader(buf 4196, q1, lgwin 10) read with [8192] vs [1, 3, 17, 1000, 7, 4097] -> identical bytes".into());
+        corr.finish(); rep.write(&args.out); return;
+    }
+    run_pairs(args.seed, &PAIR_BUFS_FULL, &mut rep);
     // ---- corpus first
     let mut cases: Vec<Case> = vec![];
     if let Ok(rd) = std::fs::read_dir("/verif/corpus/adapters") {
